@@ -136,7 +136,7 @@ def run(run):
                                          'verdict': 'only the addressed unit(s) changed' if ok else 'differs'},
                                  sample_class=('sweep', single, bc, unit in hosted, unit == 0))
     # (2) random histories
-    n = run.scale(90, 2500)
+    n = run.scale(90, 25000)
     for front, framing in FRONTS:
         for i in range(n):
             case = SH.gen_case(r, front, framing, uniq, data_only=(i % 4 != 0), max_per_read=3 if i % 3 == 0 else 1)
